@@ -241,14 +241,29 @@ def responder_cases(same_spi=False):
             yield ('n=%d:cookie-list:%s' % (n, lab), v, kind)
 
 
+def ke_mismatch_world():
+    """A guesses a group B does not prefer, so that the cookie exchange is followed by INVALID_KE_PAYLOAD"""
+    c = S.base_confs(a_over={'dh': ['20', '19']}, b_over={'dh': ['19', '20']})
+    addrs = None
+    if FAMILY['v'] == 6:
+        ca, cb = c['A']['conn_ab'], c['B']['conn_ba']
+        ca['my_addr'], ca['peer_addr'] = V6['A'], V6['B']
+        cb['my_addr'], cb['peer_addr'] = V6['B'], V6['A']
+        addrs = {'A': [V6['A']], 'B': [V6['B']]}
+    w = S.new_world(c, addrs)
+    w.sent_log = []
+    return w
+
+
 def need_third_peer(w):
     pass
 
 
 def initiator_cases():
     """COOKIE reply delivered once / twice / after the real reply; then the session runs to the end"""
-    for mode in ('once', 'twice', 'after-real-reply', 'second-challenge'):
-        w = base_world()
+    for mode in ('once', 'twice', 'after-real-reply', 'second-challenge', 'retry-lost', 'retry-lost:load-gone',
+                 'retry-answer-lost', 'invalid-ke-after-cookie'):
+        w = base_world() if mode != 'invalid-ke-after-cookie' else ke_mismatch_world()
         w.endpoints['B'].controller.cookie_threshold = -1 if mode != 'after-real-reply' else 10 ** 6
         w.step(('acquire', 'A', 0, 0))
         first = w.net[0]
@@ -302,6 +317,24 @@ def initiator_cases():
                 if len(retry2) != 1 or retry2[0].data != want2:
                     v.append(('second-challenge:retry-differs', 'after a second, different COOKIE challenge the initiator does not '
                               'send the original request with the NEW cookie placed first'))
+            if mode.startswith('retry-') and retry:
+                # the retry (or the answer to it) is lost: what the retransmission timer sends is the request in use,
+                # i.e. the one with the cookie, whether or not the responder is still under load by then
+                if mode == 'retry-answer-lost':
+                    w.step(('deliver', retry[0].id))
+                    for d in list(w.net):
+                        w.step(('drop', d.id))
+                else:
+                    w.step(('drop', retry[0].id))
+                if mode.endswith('load-gone'):
+                    w.endpoints['B'].controller.cookie_threshold = 10 ** 6
+                sa = w.endpoints['A'].controller.ike_sas[0]
+                w.step(('tick', max(0.0, sa.retransmit_at - w.clock) + 0.01))
+                again = [d for d in w.step_emitted if d.sender == 'A']
+                if len(again) != 1 or again[0].data != retry[0].data:
+                    v.append(('retransmission-differs:%s' % mode, 'after the COOKIE exchange the retransmission timer sent %s '
+                              'instead of the request in use (the one carrying the cookie)' % (
+                                  [[t for t, _ in F.split_chain(d.data[16], d.data[28:])] for d in again],)))
             guard = 0
             while w.net and guard < 60:       # bounded: an initiator that keeps re-sending a stale cookie never finishes
                 guard += 1
